@@ -275,7 +275,13 @@ def check(case):
                 while len(cells) < len(ex["cols"]):
                     cells.append(u"")
                 cells = [safe(c, v) for c, v in zip(ex["cols"], cells)]
-                table.add_row(list(cells))
+                if len(u"".join(e["values"])) % 2:
+                    # the row is handed over as a Row object (rows loaded from a data file: Row.from_dict / Row(...))
+                    from behave.model import Row
+                    table.add_row(Row(list(table.headings), list(cells), line=None))
+                    res.label("table-edits:add_row(Row-object)")
+                else:
+                    table.add_row(list(cells))
                 ex["rows"].append((list(cells), table.rows[-1].line))
                 applied += 1
             elif e["op"] == "add_column":
@@ -395,7 +401,7 @@ def explore(rec):
 def required_labels(tier):
     return ["rows:3", "blocks:0", "blocks:2", "column-orders-differ", "parametrised-tag", "placeholder-in-docstring",
             "placeholder-in-table", "schema", "table-edits", "table-edits:remove_columns-partly-done",
-            "table-edits:failed-build-then-rebuilt", "big:wide", "big:tall", "big:sections", "row-preview", "asked-for-tag-selection-before-expansion"]
+            "table-edits:failed-build-then-rebuilt", "big:wide", "big:tall", "big:sections", "row-preview", "table-edits:add_row(Row-object)", "asked-for-tag-selection-before-expansion"]
 
 
 KNOWN_PREDICATES = {}
